@@ -187,6 +187,9 @@ class Count(cache.Recursion, length=1):
                 _leave(f'{key}/{index}')
             yield value
             index += 1
+        # output after the last item belongs to the end of the sequence and must be replayed with it
+        with treelog.context('count'):
+            treelog.info('sequence complete after', self.n, 'items')
 
 
 class Tri(cache.Recursion, length=3):
